@@ -8,7 +8,7 @@ import (
 
 func init() {
 	register(&PropDef{
-		ID: "C15", Level: "exploration", Quick: 4000, Thorough: 400000, QuickCap: 100,
+		ID: "C15", Level: "exploration", Quick: 8000, Thorough: 400000, QuickCap: 100,
 		Rule: "each run = one store, 3-30 requests after a drawn history: compose with 1..33 sources (repeats, empty objects, the destination among its sources, missing sources, per-source generations), destination metadata from the request; copy (rewrite) within and across buckets to destination names containing '/', '/o/', spaces, dots and percent characters, missing sources; uploads, patches and deletes in between; every response and the full state (sources untouched) are compared with the object model; distinct = hash of (store, shapes, source counts); non-trivial = at least one compose or copy that succeeded",
 		Real: []string{"gcsemu handleGcsCompose/finishCompose, handleGcsCopy (rewriteTo path split), Store.Copy of both stores"},
 		Stub: []string{"HTTP connections (recorder)", "wall clock (strictly increasing)"},
